@@ -158,6 +158,8 @@ def userspace_leg(params, res):
         sims = simgroup.make_sims(terms)
         b = bus.Bus(sims)
         lost = [rng.random() < 0.25 for _ in range(64)]
+        passive = [rng.random() < 0.4 for _ in range(61)]
+        passive[0] = rng.random() < 0.6   # often the very first one
         seen = dict(frames=0, bad=None, timeouts=0)
         with kern.session() as sess:
             async def main(loop):
@@ -177,13 +179,23 @@ def userspace_leg(params, res):
                     en = [pos for pos, cmd in writers if data[pos] != 0]
                     if en and seen["bad"] is None:
                         seen["bad"] = (seen["frames"], en, data[3] & 0xff)
+                    if data[3] != 0 and seen.get("stale") is None:
+                        # a frame user space injects is a fresh one: loop
+                        # counter byte 0 (the dispatcher takes anything else
+                        # for a frame that has been round the bus)
+                        seen["stale"] = (seen["frames"], data[3])
                     k = state["k"]
                     state["k"] += 1
                     resp = bytearray(b.process(data))
-                    # what the dispatcher + group program hand back
-                    resp[3] = (k * 2 + 1) & 0xff
-                    for pos, cmd in writers:
-                        resp[pos] = cmd
+                    # what the dispatcher hands back to user space: frames
+                    # the group program has activated (odd counter, writers
+                    # enabled) or passive ones (even counter, writers off)
+                    if passive[k % len(passive)]:
+                        resp[3] = (k * 2 + 2) & 0xff or 2
+                    else:
+                        resp[3] = (k * 2 + 1) & 0xff
+                        for pos, cmd in writers:
+                            resp[pos] = cmd
                     if lost[k % len(lost)]:
                         seen["timeouts"] += 1
                         return []
@@ -206,6 +218,12 @@ def userspace_leg(params, res):
         res.case(["userspace", round_, desc])
         res.count("userspace_frames", seen["frames"])
         res.count("userspace_timeouts", seen["timeouts"])
+        if seen.get("stale"):
+            res.violation(
+                "unexplained:user-space-injects-a-stale-frame",
+                f"cyclic frame #{seen['stale'][0]} sent by user space "
+                f"carries loop counter byte {seen['stale'][1]} instead of 0",
+                case=desc)
         if seen["bad"]:
             res.violation(
                 "unexplained:frame-left-user-space-with-enabled-writers",
